@@ -1073,12 +1073,57 @@ void runLifecycle(const LPlan &plan, pbt::Case &c)
       c.fail("C02/restart-failed", "start() after an orderly stop() failed");
       return;
     }
+    // UDP: the raw sockets of the accepted peers of the first run (same remote ip:port). Their
+    // sessions were closed by the peer-independent causes above or were still open at stop().
+    std::vector<int> oldPeers;
+    if (udp)
+      for (auto &s : sess)
+        if (s.origin == 'A' && s.rawFd >= 0 && oldPeers.size() < 3) oldPeers.push_back(s.rawFd);
+    const std::size_t restartIdx = log.snapshot().size();
     auto lr2 = t->addListener("127.0.0.1", 0, TlsMode::None);
     std::uint16_t p2 = lr2.isOk() ? t->getListenerAddress(lr2.value()).port : 0;
     if (p2 != 0)
     {
       lid = lr2.value();
       ioraPort = p2;
+      // the same peers talk to the restarted engine: each must be announced as a FRESH session
+      // (new id) and its datagram delivered there - never on an id of the first run
+      for (int fd : oldPeers)
+      {
+        std::uint16_t port = c02raw::localPort(fd);
+        if (!c02raw::udpSendTo(fd, ioraPort, "same peer after restart", 23)) continue;
+        std::uint64_t sid = 0;
+        bool ok = log.waitFor(
+          [&](const std::vector<c02log::Event> &v)
+          {
+            for (std::size_t i = restartIdx; i < v.size(); ++i)
+              if (v[i].k == K::Accept && v[i].a == port)
+              {
+                sid = v[i].sid;
+                return true;
+              }
+            return false;
+          },
+          kBoundMs);
+        if (!ok)
+        {
+          c.inconclusive("peer of the first run was not announced again after the restart");
+          bail = true;
+          break;
+        }
+        c.label("same udp peer re-announced after restart");
+        if (sess.size() < 8)
+        {
+          Sess ns;
+          ns.origin = 'A';
+          ns.rawFd = fd;
+          ns.sid = sid;
+          ns.sidKnown = true;
+          ns.established = true;
+          ns.ioraPort = ioraPort;
+          sess.push_back(ns);
+        }
+      }
       if (sess.size() >= 7) sess.erase(sess.begin(), sess.begin() + 2); // room for two more (all closed by the stop)
       const std::size_t before = sess.size();
       newAccept();
@@ -1253,6 +1298,16 @@ PBT_REGRESSION(restart_ids_and_service_udp)
   p.udp = true;
   p.restart = true;
   p.ops = {{NewAccept, 0, 0, 0}, {NewConnect, TListening, 1, 0}, {PeerSend, 0, 0, 0}};
+  runLifecycle(p, c);
+}
+// restart with the SAME udp peers: two accepted sessions still open at stop(), start(), new
+// listener, the same raw sockets send again -> fresh announce, delivery, one close, new ids
+PBT_REGRESSION(restart_same_peer_udp)
+{
+  LPlan p;
+  p.udp = true;
+  p.restart = true;
+  p.ops = {{NewAccept, 0, 0, 0}, {NewAccept, 0, 0, 0}, {PeerSend, 0, 0, 0}, {PeerSend, 1, 0, 0}};
   runLifecycle(p, c);
 }
 // every close cause once, sequentially, TCP
